@@ -565,9 +565,19 @@ def copyFileOld (st : FS) (src dst : Bytes) (script : List Nat) : FS × Out Unit
 
 /-! ### metadata / exists -/
 
+/-- `rusl::unistd::stat(path)` = `newfstatat(AT_FDCWD, path, AT_EMPTY_PATH)`: the flag is always passed, so the EMPTY
+path does not fail with ENOENT but names the working directory itself.  (`write_all_sub_paths` calls the same function,
+never with an empty path: there `stat` is used directly.) -/
+def statE (st : FS) (p : Bytes) : Out Kind :=
+  if p = [] then
+    match getAt st.root st.cwd with
+    | some n => .ok n.kind
+    | none => .error (.os ENOENT)
+  else stat st p
+
 /-- `fs::metadata(path)` seen through `Metadata::{is_dir, is_file, is_symlink}` and, for a regular file, `len` -/
 def fsMetadata (st : FS) (p : Bytes) : Out (Bool × Bool × Bool × Option Nat) :=
-  match stat st p with
+  match statE st p with
   | .error e => .error e
   | .ok k =>
     .ok (metaIsDir k.stMode, metaIsFile k.stMode, metaIsSymlink k.stMode,
@@ -575,7 +585,7 @@ def fsMetadata (st : FS) (p : Bytes) : Out (Bool × Bool × Bool × Option Nat) 
 
 /-- `fs::exists(path)`: ENOENT is `Ok(false)`, any other error is returned -/
 def fsExists (st : FS) (p : Bytes) : Out Bool :=
-  match stat st p with
+  match statE st p with
   | .ok _ => .ok true
   | .error e => if e = .os ENOENT then .ok false else .error e
 
